@@ -60,4 +60,6 @@ VARIANTS += [
       rule='C09-SAMEPREP', key='verify_df'),
     M('C09', 'refactor-repair-guard-inverted', [E(PC, "    if repair:\n        pdv.repair_field_types(constraints)\n    return pdv.verify(", "    if not repair:\n        pass\n    else:\n        pdv.repair_field_types(constraints)\n    return pdv.verify(")],
       kind='refactor'),
+    M('C09', 'file-load-drops-fields-named-like-comments', E(BS, "        self.initialize_from_dict(native_definite(obj))", "        obj['fields'] = OrderedDict((k, v) for k, v in obj.get('fields', {}).items() if not k.startswith('#'))\n        self.initialize_from_dict(native_definite(obj))"),
+      rule='C09-SAMELOAD', key='load'),
 ]
